@@ -88,6 +88,8 @@ TSilent ==
      \/ \E c \in Calls : Kind(c) = "setaddr" /\ Send(c) /\ plan'[c] = <<<<"silence", 0>>>> /\ sends'[c] = 1
      \* a refused peer (closed port): nothing reaches the farm, so there is no ask event
      \/ \E c \in Calls : Path(c) \in {"tcp", "udp"} /\ Send(c) /\ plan'[c] = <<<<"refused", 0>>>>
+     \* a peer that never answers the SYN: likewise no ask event
+     \/ \E c \in Calls : Path(c) = "tcp" /\ Send(c) /\ plan'[c] = <<<<"blackhole", 0>>>>
 
 \* a dg event whose socket is already closed is still consumed (the farm did send it)
 TDgLate == /\ IsEv("dg")
